@@ -843,3 +843,173 @@ VARIANTS += [
     V('C09-M27', 'M', ('C09', 'C04'), WK, 'Worker._build_input_batches', r"preprocess = getattr\(self, 'preprocess', None\)", 'preprocess = self._preprocess', ('C09-9', 'C04-9'), note='seeded C09-r4m2 / C04-r4m1 shape (cached hook)'),
     V('C06-M26', 'M', ('C06',), SV, 'Server._enqueue', r"(\n        )fut\.data\['t1'\] = perf_counter\(\)", r"\1fut.data['t1'] = perf_counter()\1fut.data['deadline'] = fut.data['t1'] + timeout", ('C06-12',), note='seeded C06-r4m1 shape: deadline re-anchored after admission'),
 ]
+
+
+# ---------------------------------------------------------------------- type annotations added: every plain local / attribute assignment annotated, every parameter annotated
+def _annotate(m):
+    import ast as _ast
+
+    tree = _ast.parse(m.group(0))
+    for fn in [x for x in _ast.walk(tree) if isinstance(x, (_ast.FunctionDef, _ast.AsyncFunctionDef))]:
+        declared = {n_ for g in _ast.walk(fn) if isinstance(g, (_ast.Global, _ast.Nonlocal)) for n_ in g.names}
+        for a in fn.args.posonlyargs + fn.args.args + fn.args.kwonlyargs:
+            if a.annotation is None and a.arg not in ('self', 'cls'):
+                a.annotation = _ast.Constant('object')
+        for node in _ast.walk(fn):
+            for fld in ('body', 'orelse', 'finalbody'):
+                blk = getattr(node, fld, None)
+                if not isinstance(blk, list):
+                    continue
+                for i, st in enumerate(blk):
+                    if isinstance(st, _ast.Assign) and len(st.targets) == 1:
+                        t = st.targets[0]
+                        if (isinstance(t, _ast.Name) and t.id not in declared) or (isinstance(t, _ast.Attribute) and isinstance(t.value, _ast.Name)):
+                            blk[i] = _ast.copy_location(_ast.AnnAssign(target=t, annotation=_ast.Constant('object'), value=st.value, simple=1 if isinstance(t, _ast.Name) else 0), st)
+    return _ast.unparse(_ast.fix_missing_locations(tree)) + '\n'
+
+
+for _i, _m in enumerate(_MODS + [FU]):
+    VARIANTS.append(V(f'G-ann-{_i:02d}', 'E', ALL, _m, None, r'\A.*\Z', _annotate, flags=re.S, note='every parameter and every plain assignment in a function given a type annotation'))
+
+
+# ---------------------------------------------------------------------- trace logging added everywhere: a debug line at the start of every function, loop body and handler, and before every return
+def _tracelog(m):
+    import ast as _ast
+
+    src = m.group(0)
+    tree = _ast.parse(src)
+    if not any(isinstance(st, _ast.Assign) and any(isinstance(t, _ast.Name) and t.id == 'logger' for t in st.targets) for st in tree.body):
+        return src
+    k = [0]
+
+    def line():
+        k[0] += 1
+        return _ast.parse(f"logger.debug('trace %d', {k[0]})").body[0]
+
+    def pad(block):
+        out = []
+        for st in block:
+            if isinstance(st, _ast.Return):
+                out.append(line())
+            out.append(st)
+        block[:] = out
+
+    for fn in [x for x in _ast.walk(tree) if isinstance(x, (_ast.FunctionDef, _ast.AsyncFunctionDef))]:
+        for node in _ast.walk(fn):
+            if isinstance(node, (_ast.FunctionDef, _ast.AsyncFunctionDef, _ast.ClassDef, _ast.Lambda)) and node is not fn:
+                continue
+            for fld in ('body', 'orelse', 'finalbody'):
+                blk = getattr(node, fld, None)
+                if isinstance(blk, list) and blk and isinstance(blk[0], _ast.stmt):
+                    pad(blk)
+            if isinstance(node, (_ast.For, _ast.AsyncFor, _ast.While, _ast.ExceptHandler)):
+                node.body.insert(0, line())
+        i = 1 if fn.body and isinstance(fn.body[0], _ast.Expr) and isinstance(fn.body[0].value, _ast.Constant) and isinstance(fn.body[0].value.value, str) else 0
+        fn.body.insert(i, line())
+    return _ast.unparse(_ast.fix_missing_locations(tree)) + '\n'
+
+
+for _i, _m in enumerate(_MODS + [FU]):
+    VARIANTS.append(V(f'G-log-{_i:02d}', 'E', ALL, _m, None, r'\A.*\Z', _tracelog, flags=re.S, note='logger.debug lines at the start of every function, loop body and handler and before every return'))
+
+
+# ---------------------------------------------------------------------- import style: `from M import a` <-> `import M` + `M.a`
+_STD_FROM = ('time', 'queue', 'collections', 'pickle')
+_STD_QUAL = {'queue': ('Empty', 'Full', 'SimpleQueue'), 'threading': ('Lock', 'RLock', 'Condition', 'Event', 'Semaphore', 'BoundedSemaphore', 'current_thread'), 'time': ('perf_counter', 'monotonic', 'sleep'), 'traceback': ('format_exc', 'format_exception', 'print_exc'), 'itertools': ('count', 'islice'), 'functools': ('partial', 'wraps')}
+
+
+def _qualify_imports(m):
+    import ast as _ast
+
+    src = m.group(0)
+    tree = _ast.parse(src)
+    stored = {n.id for n in _ast.walk(tree) if isinstance(n, _ast.Name) and isinstance(n.ctx, (_ast.Store, _ast.Del))} | {a.arg for n in _ast.walk(tree) if isinstance(n, _ast.arguments) for a in n.posonlyargs + n.args + n.kwonlyargs}
+    mapping = {}
+    new_body = []
+    have = {a.name for st in tree.body if isinstance(st, _ast.Import) for a in st.names if a.asname is None}
+    for st in tree.body:
+        if isinstance(st, _ast.ImportFrom) and st.level == 0 and st.module in _STD_FROM and all((a.asname or a.name) not in stored for a in st.names):
+            for a in st.names:
+                mapping[a.asname or a.name] = (st.module, a.name)
+            if st.module not in have:
+                have.add(st.module)
+                new_body.append(_ast.copy_location(_ast.Import(names=[_ast.alias(name=st.module)]), st))
+            continue
+        new_body.append(st)
+    if not mapping:
+        return src
+    tree.body = new_body
+
+    class T(_ast.NodeTransformer):
+        def visit_Name(self, n):
+            if isinstance(n.ctx, _ast.Load) and n.id in mapping:
+                mod, nm = mapping[n.id]
+                return _ast.copy_location(_ast.Attribute(value=_ast.Name(id=mod, ctx=_ast.Load()), attr=nm, ctx=_ast.Load()), n)
+            return n
+
+    tree = T().visit(tree)
+    return _ast.unparse(_ast.fix_missing_locations(tree)) + '\n'
+
+
+def _unqualify_imports(m):
+    import ast as _ast
+
+    src = m.group(0)
+    tree = _ast.parse(src)
+    bound = {n.id for n in _ast.walk(tree) if isinstance(n, _ast.Name)} | {a.arg for n in _ast.walk(tree) if isinstance(n, _ast.arguments) for a in n.posonlyargs + n.args + n.kwonlyargs} | {a.asname or a.name.split('.')[0] for st in _ast.walk(tree) if isinstance(st, (_ast.Import, _ast.ImportFrom)) for a in st.names} | {n.name for n in _ast.walk(tree) if isinstance(n, (_ast.FunctionDef, _ast.AsyncFunctionDef, _ast.ClassDef))}
+    imported = {a.name for st in tree.body if isinstance(st, _ast.Import) for a in st.names if a.asname is None}
+    used = {}
+
+    class T(_ast.NodeTransformer):
+        def visit_Attribute(self, n):
+            self.generic_visit(n)
+            if isinstance(n.value, _ast.Name) and n.value.id in _STD_QUAL and n.value.id in imported and n.attr in _STD_QUAL[n.value.id] and n.attr not in bound and isinstance(n.ctx, _ast.Load):
+                used.setdefault(n.value.id, set()).add(n.attr)
+                return _ast.copy_location(_ast.Name(id=n.attr, ctx=_ast.Load()), n)
+            return n
+
+    tree = T().visit(tree)
+    if not used:
+        return src
+    at = max((i for i, st in enumerate(tree.body) if isinstance(st, (_ast.Import, _ast.ImportFrom))), default=0) + 1
+    for mod, names in sorted(used.items()):
+        tree.body.insert(at, _ast.ImportFrom(module=mod, names=[_ast.alias(name=x) for x in sorted(names)], level=0))
+    return _ast.unparse(_ast.fix_missing_locations(tree)) + '\n'
+
+
+for _i, _m in enumerate(_MODS + [FU]):
+    VARIANTS.append(V(f'G-imq-{_i:02d}', 'E', ALL, _m, None, r'\A.*\Z', _qualify_imports, flags=re.S, note='`from time import perf_counter` style replaced by `import time` + `time.perf_counter` (time, queue, collections, pickle)'))
+    VARIANTS.append(V(f'G-imu-{_i:02d}', 'E', ALL, _m, None, r'\A.*\Z', _unqualify_imports, flags=re.S, note='`threading.Lock()` / `queue.Empty` / `time.perf_counter()` style replaced by from-imports'))
+
+
+# ---------------------------------------------------------------------- module aliases: `import threading` -> `import threading as th_`
+def _alias_imports(m):
+    import ast as _ast
+
+    src = m.group(0)
+    tree = _ast.parse(src)
+    subs = {a.name.split('.')[0] for st in _ast.walk(tree) if isinstance(st, _ast.Import) for a in st.names if '.' in a.name}
+    stored = {n.id for n in _ast.walk(tree) if isinstance(n, _ast.Name) and isinstance(n.ctx, (_ast.Store, _ast.Del))} | {a.arg for n in _ast.walk(tree) if isinstance(n, _ast.arguments) for a in n.posonlyargs + n.args + n.kwonlyargs + ([n.vararg] if n.vararg else []) + ([n.kwarg] if n.kwarg else [])}
+    mapping = {}
+    for st in tree.body:
+        if isinstance(st, _ast.Import):
+            for a in st.names:
+                if a.asname is None and '.' not in a.name and a.name not in subs and a.name not in stored and a.name in ('threading', 'queue', 'time', 'asyncio', 'os', 'traceback', 'itertools', 'functools', 'errno', 'sys'):
+                    a.asname = a.name[:2] + '_'
+                    mapping[a.name] = a.asname
+    if not mapping:
+        return src
+    for n in _ast.walk(tree):
+        if isinstance(n, _ast.Name) and n.id in mapping and isinstance(n.ctx, _ast.Load):
+            n.id = mapping[n.id]
+    return _ast.unparse(_ast.fix_missing_locations(tree)) + '\n'
+
+
+for _i, _m in enumerate(_MODS + [FU]):
+    VARIANTS.append(V(f'G-ima-{_i:02d}', 'E', ALL, _m, None, r'\A.*\Z', _alias_imports, flags=re.S, note='`import threading` style replaced by `import threading as th_` (and uses)'))
+
+VARIANTS += [
+    V('C12-M30', 'M', ('C12',), CX, 'SpawnProcess.join', r"(\n        )self\._result_collector_thread_\.join\(\)\n", r"\1if self.exitcode == 0:\1    return\1self._result_collector_thread_.join()\n", ('C12-4',), note='seeded C12-r4m1 shape on the repaired tree: exit status 0 skips the outcome'),
+    V('C12-M31', 'M', ('C12',), CX, 'SpawnProcess.join', r"(\n        )self\._result_collector_thread_\.join\(\)\n", r"\1self._result_collector_thread_.join()\1self._logger_thread_.join()\n", ('C12-4',), note='seeded C12-r4m2 shape: join also waits for the log channel'),
+    V('C12-E30', 'E', ALL, CX, 'SpawnProcess.join', r"(\n        )if self\._future_\.exception\(\):\n\s+raise self\._future_\.exception\(\)", r"\1exc = self._future_.exception()\1if exc is not None:\1    raise exc", note='outcome bound to a local'),
+]
